@@ -2,7 +2,7 @@
 from .. import roles
 from ..cfg import DefIndex
 from ..facts import KIND, callee
-from ..symex import PathLimit, SymEx, show
+from ..symex import PathLimit, SymEx, show, vec_literal_hook
 from . import c09, c17
 from .c01_ops import str_of
 
@@ -19,6 +19,15 @@ STAGING = "::compiler::translate_staging::"
 BINDER_COMBINATORS = ("code_let", "code_let_tuple", "code_letrec", "code_letrec_typed", "code_lam1_finish", "code_lam1_finish_typed", "code_lam_finish", "code_lam_finish_typed", "code_lam_finish_defaults", "code_lam_finish_defaults_typed", "code_feed")
 
 
+def _is_const_name(e):
+    """sym_to_string_literal("_".to_symbol()) and the like: the name is a string constant of the compiler"""
+    while e[0] == "call" and len(e[2]) == 1:
+        e = e[2][0]
+    while e[0] in ("ref", "deref"):
+        e = e[1]
+    return e[0] == "k" and isinstance(e[1], str)
+
+
 def rule_binders(ck, facts):
     R = "C10.binders"
     ck.rule(R, "for every emitted binder-introducing combinator call, the binder-name argument must flow from a gensym (fresh name); a name literal built directly from the source pattern's identifier is a capture site")
@@ -33,7 +42,7 @@ def rule_binders(ck, facts):
             fresh = any((callee(tt) or "").endswith("fresh_desugar_name") for g in fam for _, tt in g.calls())
             root = f.root.split("::", 1)[1]
             # is the binder-name operand derived from the gensym result on this call?  resolve first data argument
-            sx = SymEx(f, max_paths=64, max_steps=4000, facts=facts)
+            sx = SymEx(f, max_paths=64, max_steps=4000, facts=facts, call_hook=vec_literal_hook)
             try:
                 paths = sx.run(0, stop_at_call=lambda nm, tt, t=t: tt is t)
             except PathLimit:
@@ -43,7 +52,15 @@ def rule_binders(ck, facts):
                 if p.end != "stopcall":
                     continue
                 args = p.events[-1][2]
-                txt = repr(args)
+                # the binder name is the first element of the argument list literal (`vec![name, ..]`)
+                lst = args[1] if len(args) > 1 else None
+                if lst is not None and lst[0] == "agg" and lst[1] == "vec" and lst[2]:
+                    binder = lst[2][0]
+                    if _is_const_name(binder):
+                        continue  # a literal such as "_" binds nothing the user can spell
+                    txt = repr(binder)
+                else:
+                    txt = ""  # the list is not a literal here: cannot show the name is fresh
                 if "fresh_desugar_name" in txt:
                     src_named = False if src_named is None else src_named
                 else:
@@ -82,4 +99,8 @@ def run(ck, facts, tier):
 
     c16.rule_name_spelling(ck, facts)
     c16.rule_block_scope(ck, facts)
+    # every walk over a `let` pattern reaches every sub-pattern (what a binder binds does not depend on its position)
+    from ..rules import patcover
+
+    patcover.run(ck, facts, "C09.pattern-cover", roles.LANG)
     ck.not_decided("that consistently renaming a binder inside a macro body leaves program outputs unchanged (behavioural)")
